@@ -16,6 +16,7 @@ VENV_PY = '/venv/bin/python'
 REPO = os.environ.get('FLOWCAL_REPO', '/repo')
 
 EXIT_OK, EXIT_VIOLATION, EXIT_UNDECIDED, EXIT_BROKEN = 0, 1, 2, 3
+JOB_BUDGET_S = int(os.environ.get('PYVC_JOB_BUDGET_S', '420'))
 
 
 def load_contract(ref):
@@ -36,12 +37,26 @@ def _job(args):
     """one (contract, case) in a worker process -> picklable summary"""
     ref, label, facts, timeout_ms, mutate_ref = args
     from . import verify as V
+    from .ctx import Unsupported
+    import signal
     t0 = time.time()
+
+    def on_alarm(signum, frame):
+        raise Unsupported('time budget of %d s for this case exceeded' % JOB_BUDGET_S)
+    try:
+        signal.signal(signal.SIGALRM, on_alarm)
+        signal.alarm(JOB_BUDGET_S)
+    except Exception:
+        pass
     try:
         c = load_contract(ref)
         c.config = dict(c.config)
         c.config['envfacts'] = facts
         rep = V.verify(c, timeout_ms=timeout_ms, case_filter=(lambda l: l == label) if label is not None else None)
+        try:
+            signal.alarm(0)
+        except Exception:
+            pass
         res = []
         for r in rep.results:
             res.append({'name': r.name, 'kind': r.kind, 'status': r.status, 'backend': r.backend,
@@ -53,7 +68,19 @@ def _job(args):
                 'covers': rep.covers, 'axioms': sorted(rep.axioms_used), 'branch_queries': rep.branch_queries,
                 'solver_s': round(rep.solver_s, 3), 'wall_s': round(time.time() - t0, 3),
                 'assumptions': list(getattr(c, 'assumptions', ()))}
+    except Unsupported as e:
+        try:
+            signal.alarm(0)
+        except Exception:
+            pass
+        return {'ref': ref, 'target': getattr(load_contract(ref), 'target', ref), 'label': label, 'results': [], 'paths': 0, 'cases': [],
+                'unsupported': ['%s: %s' % (label, e)], 'errors': [], 'covers': {}, 'axioms': [], 'branch_queries': 0, 'solver_s': 0,
+                'wall_s': round(time.time() - t0, 3), 'sha256': None, 'assumptions': []}
     except Exception as e:   # noqa
+        try:
+            signal.alarm(0)
+        except Exception:
+            pass
         return {'ref': ref, 'target': ref, 'label': label, 'results': [], 'paths': 0, 'cases': [], 'unsupported': [],
                 'errors': ['%s: %s\n%s' % (type(e).__name__, e, traceback.format_exc()[-3000:])], 'covers': {},
                 'axioms': [], 'branch_queries': 0, 'solver_s': 0, 'wall_s': round(time.time() - t0, 3),
